@@ -75,6 +75,7 @@ func c01Alphabet(tier string) []seqSym {
 		sy("RENAME", "k1", "k1"),
 		sy("RENAMENX", "k2", "k2"),
 		sy("EXPIRE", "k2", "a", "100"),
+		sy("EXPIRE", "k1", "a", "200"),
 		sy("PERSIST", "k2", "a"),
 		sy("JSET", "k1", "a", "y", "str"),
 		sy("JSET", "k2", "c", "v", "true"),
@@ -114,10 +115,17 @@ func c01Probes() []seqSym {
 type seqHooks struct {
 	// AtState runs extra oracles in the destination state; returns violation
 	// (sig, detail) or "".
-	AtState func(x *Exec, in *Inst, c *Cli, st *mState) (string, string)
+	AtState func(x *Exec, in *Inst, c *Cli, st *mState) [][2]string
 }
 
 func runSeqCheck(job *Job, res *Result, prop string, alpha []seqSym, depth int, hooks seqHooks) {
+	runSeqCheckOpt(job, res, prop, alpha, depth, hooks, false)
+}
+
+// runSeqCheckOpt: with hooksOnly the model is used only to enumerate and
+// deduplicate; replies / visible dump are not compared with it (so that a
+// defect of another property cannot raise this property's alarm).
+func runSeqCheckOpt(job *Job, res *Result, prop string, alpha []seqSym, depth int, hooks seqHooks, hooksOnly bool) {
 	probes := c01Probes()
 	type arrival struct {
 		hash uint64
@@ -165,11 +173,14 @@ func runSeqCheck(job *Job, res *Result, prop string, alpha []seqSym, depth int, 
 			}
 			got := c.Do(alpha[e.Sym].Args...)
 			sym := alpha[e.Sym]
-			if !mMatch(e.Exp, got) {
+			if !hooksOnly && !mMatch(e.Exp, got) {
 				viol("reply:"+strings.ToLower(sym.Args[0])+":"+replyClass(e.Exp)+"->"+replyClass(got.String()),
 					fmt.Sprintf("%s replied %s, model expects %s (state before: %s)", sym, got, e.Exp, e.Src))
 			}
 			for _, p := range probes {
+				if hooksOnly {
+					break
+				}
 				exp := mApply(dst, p.Args) // reads do not modify dst
 				g := c.Do(p.Args...)
 				if !mMatch(exp, g) {
@@ -178,7 +189,8 @@ func runSeqCheck(job *Job, res *Result, prop string, alpha []seqSym, depth int, 
 				}
 			}
 			sc, err := serverCanon(c)
-			if err != nil {
+			if hooksOnly {
+			} else if err != nil {
 				viol("dump", err.Error())
 			} else if sc != e.Dst {
 				sig := "state:" + strings.ToLower(sym.Args[0])
@@ -189,17 +201,21 @@ func runSeqCheck(job *Job, res *Result, prop string, alpha []seqSym, depth int, 
 			}
 			idump, problems := internalDump(in.S)
 			for _, p := range problems {
-				viol("audit:"+auditClass(p), p)
+				// index / counter consistency is C19's subject; C01 only claims
+				// "a collection exists iff it holds at least one object"
+				if hooksOnly || strings.Contains(p, "exists but is empty") {
+					viol("audit:"+auditClass(p), p)
+				}
 			}
 			h := fnv(idump)
 			if a, ok := first[e.Dst]; !ok {
 				first[e.Dst] = arrival{h, strings.Join(full, " ; ")}
-			} else if a.hash != h {
+			} else if a.hash != h && !hooksOnly {
 				viol("hidden-state:"+strings.ToLower(sym.Args[0]), fmt.Sprintf("internal dump differs from the one reached via [%s]: %s", a.via, idump))
 			}
 			if hooks.AtState != nil {
-				if sig, detail := hooks.AtState(x, in, c, dst); sig != "" {
-					viol(sig, detail)
+				for _, v := range hooks.AtState(x, in, c, dst) {
+					viol(v[0], v[1])
 				}
 			}
 			res.Distinct(fnv(e.Dst + "|" + got.String()))
